@@ -380,6 +380,18 @@ void World::purity_extras()
     }
 }
 
+void World::check_getter_vs_snapshot(const TrackObs& t)
+{
+    if (!t.have_snapshot)
+        return;
+    for (auto& sf : t.snap)
+        for (auto& gf : t.get)
+            if (gf.first == sf.first && gf.second != sf.second)
+                report("C06", "C06|getter-vs-snapshot|" + fam() + "|" + sf.first,
+                       "track " + std::to_string(t.id) + ": getter " + sf.first + "() = " + gf.second + " but snapshot()." + sf.first +
+                           " = " + sf.second);
+}
+
 void World::after_step(const StepEffect& e)
 {
     log.str(e.out.threw ? "threw:" + e.out.exc : "ok");
@@ -490,20 +502,8 @@ void World::after_step(const StepEffect& e)
     }
     // C06: getter and snapshot field agree
     if (check(CK_DIFF) && !faulted && !e.raw)
-    {
         for (auto& kv : cur.track)
-        {
-            auto& t = kv.second;
-            if (!t.have_snapshot)
-                continue;
-            for (auto& sf : t.snap)
-                for (auto& gf : t.get)
-                    if (gf.first == sf.first && gf.second != sf.second)
-                        report("C06", "C06|getter-vs-snapshot|" + fam() + "|" + sf.first,
-                               "track " + std::to_string(kv.first) + ": getter " + sf.first + "() = " + gf.second +
-                                   " but snapshot()." + sf.first + " = " + sf.second);
-        }
-    }
+            check_getter_vs_snapshot(kv.second);
     for (auto id : model.tracks)
     {
         if (e.raw)
